@@ -41,7 +41,7 @@ fn main() {
         "C12" => pc12::run(ctx),
         "C15" => pc15::run(ctx),
         "C16" => { pc16::run(ctx); pcchan::run(ctx, "C16") }
-        "C18" => pc18::run(ctx),
+        "C18" => { pc18::run(ctx); pc12::kth_candidate(ctx, "C18") }
         "C19" => { pc19::run(ctx); pcchan::run(ctx, "C19") }
         _ => { eprintln!("unknown property {id}"); std::process::exit(2); }
     }
